@@ -68,7 +68,13 @@ Definition case_yaml (input obs : json) : verdict :=
                        else Some "claims differ from the document without its tags (a tag was turned into data)"
       | _ => Some "unreadable outcome" end
     else None in
+  (* documents the untagged twin of which is no valid document (two equal keys): must be refused *)
+  let must_reject (o : json) : option string :=
+    if obs_is "panic" o then Some "parse_yaml panics"
+    else if obs_is "ok" o then Some "parse_yaml accepts a document in which two keys of one mapping coincide once the tag is removed (the document without its tags is refused)"
+    else None in
   let v1 := decide (if expect_ok then yaml_oracle input
+                    else if String.eqb (jstr_or_empty (jget "expect_ok" input)) "reject" then must_reject
                     else if String.eqb (jstr_or_empty (jget "expect_ok" input)) "if_ok_then_untagged" then lenient
                     else (fun o => if obs_is "panic" o then Some "parse_yaml panics" else None))
                    (jget "parse" obs) m nt "parse_yaml" in
